@@ -118,6 +118,9 @@ func makeSeqFP(name string, props []string, depth map[string]int, prefix func(w 
 		}
 		c := wrap(c0)
 		w.checkPassive(c)
+		if mc.Active("C18") {
+			w.checkLapsed(c)
+		}
 		for _, cl := range sortedClients40(w) {
 			cl.checkEntitlements(c)
 		}
@@ -150,6 +153,7 @@ func finalOracle(w *world, c failer, build func(c failer) *world, letters []lett
 		}
 		// Instance 1: probes, then all leases expire.
 		if mc.Active("C18") {
+			w.probeLapsed(c)
 			w.probeAll(c)
 		}
 		if mc.Active("C20") {
@@ -290,6 +294,7 @@ func (c *client40) probeWrong(f failer) {
 // must work. Before that, a LOCK that combines the open state ID with a
 // lock-owner of ANOTHER client must be refused.
 func (c *client40) probeRight(f failer) {
+	c.touch()
 	w := c.w
 	owners, opens := c.allOpens()
 	for i, op := range opens {
@@ -340,6 +345,7 @@ func (c *client40) probeRight(f failer) {
 // refused presents a state ID in a way it was not issued for: the request
 // must fail.
 func (c *client40) refused(f failer, how, what string, leaf *fakeLeaf, sid nfsv4.Stateid4) {
+	c.touch()
 	w := c.w
 	for _, k := range []ioKind{ioRead, ioWrite} {
 		res := w.compound(0, k.String()+"("+how+")", putfh(leaf.handle), ioOp(k, sid))
@@ -709,6 +715,25 @@ func seqs40() []*mc.Seq {
 			l40close("c1", "O2", "a"), l40open("c1", "O2", "a", accRead, howNoCreate),
 			l40io(ioWrite, "c1", "O1", "b", sidLock, "L1"),
 			l40renew("c1"),
+			lAdvance(halfLease, "lease/2"),
+		}))
+	// Two clients, lease time passing in steps of lease/2: c1 registered
+	// BEFORE c2 and has b open, c2 has a open read+write with a lock. Each
+	// client can stay alive with RENEW only, with READ through its open state
+	// ID or LOCKT, or go silent; c2 may also close. Deep enough (quick 7, minimum 6)
+	// for "+lease/2, RENEW c1, +lease/2, RENEW c1, +lease/2, RENEW c1": c2
+	// has then been silent for 1.5 lease times while requests of c1 kept
+	// entering the server. Oracle checkLapsed at every state: the silent
+	// client's records are gone, the files only it had open are closed, its
+	// client ID is refused -- although the OTHER client is still alive (the
+	// end-state oracle lets everybody expire at once).
+	out = append(out, makeSeq("v40-two-clients-lease", []string{"C18"}, map[string]int{"quick": 7, "thorough": 9},
+		chain(prefix40Confirmed("c1", "c2"), prefix40Open("c1", "O1", "b", accRead), prefix40Open("c2", "O1", "a", accBoth), func(w *world, f failer) {
+			w.client40("c2").lock(f, "O1", "a", "L1", rangeB0, false)
+		}), []letter{
+			l40renew("c1"), l40renew("c2"),
+			l40io(ioRead, "c1", "O1", "b", sidOpen, ""), l40lockt("c1", "b", "L2", rangeB0, false),
+			l40close("c2", "O1", "a"),
 			lAdvance(halfLease, "lease/2"),
 		}))
 	return out
